@@ -279,6 +279,12 @@ where
         self.mac.get_session()
     }
 
+    /// Read-only snapshot of the MAC state (verification harnesses only).
+    #[cfg(feature = "verif-hooks")]
+    pub fn verif_snapshot(&self) -> crate::verif::VerifSnapshot {
+        self.mac.verif_snapshot()
+    }
+
     pub fn get_region(&mut self) -> &region::Configuration {
         &self.mac.region
     }
